@@ -417,6 +417,9 @@ func EqOff(a, b *Term) *Term {
 		if notAfter(a, b) || notAfter(b, a) {
 			return False
 		}
+		if externCannotBe(a, b) || externCannotBe(b, a) {
+			return False
+		}
 	}
 	if a.sort != BoolSort && !(a.IsConst() && b.IsConst()) {
 		ba, ca := splitOff(a)
@@ -607,6 +610,38 @@ func ltOff(a, b *Term) *Term {
 // value was obtained; the value cannot be a region allocated after that.
 var regionNotAfter = map[int]uint64{}
 
+// regionExtern: results of abstracted value-parameter functions (pureExternResults): not a region
+// the verified code allocated before the call, unless one of the argument regions.
+type externRegionInfo struct {
+	seq0 uint64
+	args []*Term
+}
+
+var regionExtern = map[int]externRegionInfo{}
+
+func externCannotBe(v, c *Term) bool {
+	if v.op != "var" || c.op != "const" || c.val.Uint64()>>60 != 0xF {
+		return false
+	}
+	info, ok := regionExtern[v.id]
+	if !ok {
+		return false
+	}
+	id := c.val.Uint64() & 0x0FFFFFFFFFFFFFFF
+	if id > info.seq0 || id <= callAllocBase {
+		return false
+	}
+	for _, a := range info.args {
+		if a == v {
+			continue
+		}
+		if EqOff(a, c) != False {
+			return false
+		}
+	}
+	return true
+}
+
 func notAfter(v, c *Term) bool {
 	if c.op != "const" || c.val.Uint64()>>60 != 0xF {
 		return false
@@ -625,7 +660,22 @@ func notAfter(v, c *Term) bool {
 // effectiveMem skips the newest nodes of a chain that cannot concern region r,
 // so that memory states differing only in unrelated (e.g. freshly allocated)
 // regions get the same version identity for reads of r.
+var effMemo = map[[2]int]*Mem{}
+
 func effectiveMem(m *Mem, r *Term) *Mem {
+	if m == nil {
+		return nil
+	}
+	key := [2]int{m.id, r.id}
+	if x, ok := effMemo[key]; ok {
+		return x
+	}
+	x := effectiveMem1(m, r)
+	effMemo[key] = x
+	return x
+}
+
+func effectiveMem1(m *Mem, r *Term) *Mem {
 	for m != nil {
 		var nr *Term
 		switch m.kind {
@@ -685,7 +735,21 @@ func regionCannotBe(nr, r *Term) bool {
 
 // effectiveMemPre: the version of a memory as far as pre-existing (pre-state) regions are
 // concerned: nodes that write only freshly allocated regions (or nil) are skipped.
+var effPreMemo = map[int]*Mem{}
+
 func effectiveMemPre(m *Mem) *Mem {
+	if m == nil {
+		return nil
+	}
+	if x, ok := effPreMemo[m.id]; ok {
+		return x
+	}
+	x := effectiveMemPre1(m)
+	effPreMemo[m.id] = x
+	return x
+}
+
+func effectiveMemPre1(m *Mem) *Mem {
 	for m != nil {
 		var nr *Term
 		switch m.kind {
